@@ -2,6 +2,7 @@
 import ast
 
 from ..core import astutil as A
+from ..core import match as M
 from ..core.model import dotted
 
 META = {
@@ -13,6 +14,55 @@ TRG = "pkgcore.merge.triggers"
 ENG = "pkgcore.merge.engine"
 NAMES = ("fix_uid_perms", "fix_gid_perms", "fix_set_bits", "detect_world_writable")
 ALLOWED_KW = {"mode", "uid", "gid"}
+
+
+COMPS = (ast.GeneratorExp, ast.ListComp, ast.SetComp)
+
+
+def _mode_and(expr, entry):
+    """`<entry>.mode & K` (either operand order) -> the int K, else None"""
+    if not (isinstance(expr, ast.BinOp) and isinstance(expr.op, ast.BitAnd)):
+        return None
+    for a, b in ((expr.left, expr.right), (expr.right, expr.left)):
+        if A.unparse(a) == f"{entry}.mode":
+            k = A.try_literal(b)
+            return k if isinstance(k, int) and not isinstance(k, bool) else None
+    return None
+
+
+def _cleared_mask(mv, entry):
+    """`<entry>.mode & ~MASK` -> the int MASK, else None"""
+    m = M.pat(f"{entry}.mode & ~$$k").matches(mv) if mv is not None else None
+    k = A.try_literal(m["$k"]) if m else None
+    return k if isinstance(k, int) and not isinstance(k, bool) else None
+
+
+def _comp_of(call):
+    """the comprehension a change_attributes(...) call is the element of"""
+    par = getattr(call, "_parent", None)
+    return par if isinstance(par, COMPS) and par.elt is call else None
+
+
+def _selection(fn, comp, depth=0):
+    """the comprehension that carries the filter deciding which entries `comp` sees: `comp` itself when it has a
+    condition, else the (single) comprehension assigned to the local it iterates"""
+    g = comp.generators[0]
+    if g.ifs or depth > 3:
+        return comp if g.ifs else None
+    if isinstance(g.iter, ast.Name):
+        vals = [v for _t, v, _st in A.assignments(fn.node, g.iter.id)]
+        if len(vals) == 1 and isinstance(vals[0], COMPS) and len(vals[0].generators) == 1:
+            return _selection(fn, vals[0], depth + 1)
+    return None
+
+
+def _resolve_local(fn, expr):
+    """a local Name with exactly one assignment stands for the assigned value"""
+    if isinstance(expr, ast.Name):
+        vals = [v for _t, v, _st in A.assignments(fn.node, expr.id)]
+        if len(vals) == 1:
+            return vals[0]
+    return expr
 
 
 def run(ctx):
@@ -28,7 +78,7 @@ def run(ctx):
                 ("update", "add", "remove", "discard", "difference_update", "clear", "intersection_update", "symmetric_difference_update", "__delitem__", "__setitem__")]
         ctx.require(muts, f"{name}.trigger: no modification of the cset found")
         for c in muts:
-            ok = c.func.attr == "update" and len(c.args) == 1 and isinstance(c.args[0], (ast.GeneratorExp, ast.ListComp)) and isinstance(c.args[0].elt, ast.Call) and A.call_attr(c.args[0].elt) == "change_attributes"
+            ok = c.func.attr == "update" and len(c.args) == 1 and not c.keywords and isinstance(c.args[0], (ast.GeneratorExp, ast.ListComp)) and isinstance(c.args[0].elt, ast.Call) and A.call_attr(c.args[0].elt) == "change_attributes"
             ctx.check("R1", tr, ok, f"effect:{c.func.attr}", f"{name} modifies the cset only through update(change_attributes(...))", f"{name} modifies the cset with `{A.unparse(c)[:70]}`", node=c)
             if ok:
                 ca = c.args[0].elt
@@ -37,49 +87,70 @@ def run(ctx):
                           f"{name} rewrites attributes {sorted(map(str, kws))}; only mode/uid/gid may change", node=ca)
                 # the element updated is the element iterated (same entry, same location)
                 gen = c.args[0].generators[0]
-                ctx.check("R1", tr, A.unparse(ca.func.value) == A.unparse(gen.target), "same-entry", f"{name} replaces each selected entry by its own copy", node=ca)
+                ctx.check("R1", tr, len(c.args[0].generators) == 1 and isinstance(gen.target, ast.Name) and isinstance(ca.func, ast.Attribute) and A.unparse(ca.func.value) == gen.target.id, "same-entry", f"{name} replaces each selected entry by its own copy", node=ca)
         for n in A.body_walk(tr.node):
             if isinstance(n, (ast.Delete,)) or (isinstance(n, ast.Assign) and any(isinstance(t, ast.Subscript) and A.unparse(t.value) == cs for t in n.targets)):
                 ctx.check("R1", tr, False, "effect:subscript", "", f"{name} edits the cset by subscript: `{A.unparse(n)[:60]}`", node=n)
     ctx.floor("R1", 12)
     ca_fn = P.func("pkgcore.fs.fs", "fsBase.change_attributes")
-    txt = A.unparse(ca_fn.node)
-    ctx.check("R1", ca_fn, "location" in txt or "__class__" in txt or "copy" in txt, "change_attributes-copies", "change_attributes builds a new object of the same class from the old attributes plus overrides")
+    kwp = ca_fn.node.args.kwarg.arg if ca_fn.node.args.kwarg else None
+    copies = kwp is not None and M.has(ca_fn.node, f"$d = {{$k: getattr(self, $k) for $k in self.__attrs__ if $_}}\n$d.update({kwp})\nreturn self.__class__($_, **$d)")
+    ctx.check("R1", ca_fn, copies, "change_attributes-copies", "change_attributes builds a new object of the same class from the old attributes plus overrides")
 
     # ---- R2 masks -----------------------------------------------------------------------
     fsb = P.func(TRG, "fix_set_bits.trigger")
-    sel = [n for n in A.body_walk(fsb.node) if isinstance(n, (ast.ListComp, ast.GeneratorExp)) and n.generators[0].ifs]
-    ctx.require(sel, "fix_set_bits.trigger: selection comprehension not found")
-    cond = sel[0].generators[0].ifs[0]
-    masks = [A.try_literal(b.right) for b in ast.walk(cond) if isinstance(b, ast.BinOp) and isinstance(b.op, ast.BitAnd)]
-    ok = isinstance(cond, ast.BoolOp) and isinstance(cond.op, ast.And) and sorted(m for m in masks if isinstance(m, int)) == [0o002, 0o6000]
-    ctx.check("R2", fsb, ok, "selection-predicate", "fix_set_bits selects entries that are set-id (06000) AND world-writable (0002)", f"selection predicate is `{A.unparse(cond)}`", node=cond)
     upd = [c for c in A.calls(fsb.node) if A.call_attr(c) == "change_attributes"]
     ctx.require(upd, "fix_set_bits.trigger: change_attributes call not found")
+    comp = _comp_of(upd[0])
+    sel = _selection(fsb, comp) if comp is not None else None
+    if sel is None:
+        ctx.check("R2", fsb, False, "selection-predicate", "", "fix_set_bits: the comprehension selecting the entries to correct was not found (the correction is not applied to a filtered set of entries)", node=upd[0])
+    else:
+        sg = sel.generators[0]
+        ent = A.unparse(sg.target)
+        cond = sg.ifs[0]
+        conj = cond.values if isinstance(cond, ast.BoolOp) and isinstance(cond.op, ast.And) else []
+        masks = [_mode_and(v, ent) for v in conj]
+        ok = len(sg.ifs) == 1 and len(sel.generators) == 1 and (sel is comp or A.unparse(sel.elt) == ent) and sorted(masks, key=lambda m: (m is None, m or 0)) == [0o002, 0o6000]
+        ctx.check("R2", fsb, ok, "selection-predicate", "fix_set_bits selects entries that are set-id (06000) AND world-writable (0002)", f"selection predicate is `{A.unparse(cond)}`", node=cond)
+    ent_u = A.unparse(comp.generators[0].target) if comp is not None else None
     mv = next((k.value for k in upd[0].keywords if k.arg == "mode"), None)
-    shape = isinstance(mv, ast.BinOp) and isinstance(mv.op, ast.BitAnd) and isinstance(mv.right, ast.UnaryOp) and isinstance(mv.right.op, ast.Invert) and A.unparse(mv.left).endswith(".mode")
-    cleared = A.try_literal(mv.right.operand) if shape else None
-    ctx.check("R2", fsb, shape and isinstance(cleared, int), "mask-form", "the new mode is `old_mode & ~MASK` (every bit outside MASK, including the file-type bits of device entries, is kept)",
+    cleared = _cleared_mask(mv, ent_u)
+    ctx.check("R2", fsb, cleared is not None, "mask-form", "the new mode is `old_mode & ~MASK` (every bit outside MASK, including the file-type bits of device entries, is kept)",
               f"fix_set_bits computes the new mode as `{A.unparse(mv) if mv is not None else None}`: a keep-mask drops bits it does not list (e.g. S_IFCHR/S_IFBLK of device entries)", node=upd[0])
-    if isinstance(cleared, int):
+    if cleared is not None:
         ctx.check("R2", fsb, (cleared & 0o6000) == 0o6000 or (cleared & 0o002) == 0o002, "mask-defeats-predicate", f"the cleared mask {oct(cleared)} removes the set-id bits or the world-write bit of every selected entry", node=upd[0])
         ctx.check("R2", fsb, cleared & ~0o7777 == 0, "mask-perm-bits-only", "the cleared mask touches permission bits only")
     dww = P.func(TRG, "detect_world_writable.trigger")
     upd2 = [c for c in A.calls(dww.node) if A.call_attr(c) == "change_attributes"]
+    comp2 = _comp_of(upd2[0]) if upd2 else None
     mv2 = next((k.value for k in upd2[0].keywords if k.arg == "mode"), None) if upd2 else None
-    ctx.check("R2", dww, mv2 is not None and A.unparse(mv2).replace(" ", "") == "x.mode&~2", "world-writable-mask", "detect_world_writable(fix_perms) clears exactly the world-write bit")
+    ctx.check("R2", dww, comp2 is not None and _cleared_mask(mv2, A.unparse(comp2.generators[0].target)) == 0o002, "world-writable-mask", "detect_world_writable(fix_perms) clears exactly the world-write bit")
     ctx.floor("R2", 3)
 
     # ---- R3 ownership fixes see every entry ------------------------------------------------
     for name, attr, bad, good in (("fix_uid_perms", "uid", "portage_uid", "root_uid"), ("fix_gid_perms", "gid", "portage_gid", "root_gid")):
         tr = P.func(TRG, f"{name}.trigger")
         cs = tr.params()[2]
-        upd = [c for c in A.calls(tr.node) if A.call_attr(c) == "update"]
-        gen = upd[0].args[0].generators[0]
-        ctx.check("R3", tr, A.unparse(gen.iter) == cs, "iterates-whole-cset", f"{name} looks at every entry of the cset (symlinks, devices and fifos included)",
-                  f"{name} iterates `{A.unparse(gen.iter)}` instead of the whole cset: entry kinds left out keep the build user's ownership", node=upd[0])
-        ctx.check("R3", tr, len(gen.ifs) == 1 and A.unparse(gen.ifs[0]) == f"{A.unparse(gen.target)}.{attr} == bad", "selects-bad-owner", f"{name} selects entries owned by the build {attr}", node=upd[0])
+        upd = [c for c in A.calls(tr.node) if A.call_attr(c) == "update" and isinstance(c.func, ast.Attribute) and A.unparse(c.func.value) == cs]
+        ctx.require(upd, f"{name}.trigger: no {cs}.update(...) found")
         init = P.func(TRG, f"{name}.__init__")
+        comp = upd[0].args[0] if upd[0].args and isinstance(upd[0].args[0], COMPS) else None
+        if comp is None:
+            ctx.check("R3", tr, False, "iterates-whole-cset", "", f"{name} no longer updates the cset from a pass over its entries: `{A.unparse(upd[0])[:70]}`", node=upd[0])
+            ctx.check("R3", tr, False, "selects-bad-owner", "", f"{name}: selection of the entries owned by the build {attr} not found", node=upd[0])
+        else:
+            gen = comp.generators[0]
+            ctx.check("R3", tr, len(comp.generators) == 1 and A.unparse(gen.iter) == cs, "iterates-whole-cset", f"{name} looks at every entry of the cset (symlinks, devices and fifos included)",
+                      f"{name} iterates `{A.unparse(gen.iter)}` instead of the whole cset: entry kinds left out keep the build user's ownership", node=upd[0])
+            # the one filter is `<entry>.<attr> == <the configured build id>`; the build id is self.<field>, which
+            # __init__ sets from its first parameter (default os_data.portage_*)
+            ent = A.unparse(gen.target)
+            m = M.pat(f"{ent}.{attr} == $$b").matches(gen.ifs[0]) or M.pat(f"$$b == {ent}.{attr}").matches(gen.ifs[0]) if len(gen.ifs) == 1 else None
+            fld = M.pat("self.$fld").matches(_resolve_local(tr, m["$b"])) if m else None
+            ip = init.params()
+            configured = fld is not None and len(ip) >= 2 and M.has(init.node, f"self.{fld['fld']} = {ip[1]}") and len([1 for n in ast.walk(init.node) if isinstance(n, ast.Attribute) and isinstance(n.ctx, ast.Store) and n.attr == fld["fld"]]) == 1
+            ctx.check("R3", tr, configured, "selects-bad-owner", f"{name} selects entries owned by the build {attr}", node=upd[0])
         d = [A.unparse(x) for x in init.node.args.defaults]
         ctx.check("R3", init, d == [f"os_data.{bad}", f"os_data.{good}"], "defaults", f"{name} defaults: replace os_data.{bad} by os_data.{good}", f"{name} defaults are {d}")
     ctx.floor("R3", 6)
@@ -89,12 +160,19 @@ def run(ctx):
         K = P.cls(TRG, name)
         vals = {k: A.unparse(K.assigns[k]) if k in K.assigns else None for k in ("required_csets", "_hooks", "_engine_types")}
         ctx.check("R4", K, vals == {"required_csets": "('new_cset',)", "_hooks": "('pre_merge',)", "_engine_types": "INSTALLING_MODES"}, "registration", f"{name}: pre_merge hook, new_cset, installing modes", f"{name} registration is {vals}")
-    src = P.module(TRG).src
-    dflt = [f for f in P.module(TRG).funcs.values() if f.name.startswith("default") or "plugins" in f.name]
-    reg = " ".join(A.unparse(f.node) for f in dflt) + " ".join(A.unparse(v) for v in P.module(TRG).assigns.values())
-    allsrc = reg + " ".join(A.unparse(f.node) for m in (P.module("pkgcore.ebuild.domain"), P.module("pkgcore.ebuild.ebd")) for f in m.funcs.values())
+    # the trigger classes are *referenced* (as names, not as strings of __all__) by the default-trigger builders
+    dflt = [f.node for f in P.module(TRG).funcs.values() if f.name.startswith("default") or "plugins" in f.name]
+    dflt += list(P.module(TRG).assigns.values())
+    dflt += [f.node for m in (P.module("pkgcore.ebuild.domain"), P.module("pkgcore.ebuild.ebd")) for f in m.funcs.values()]
+    refs = set()
+    for root in dflt:
+        for n in ast.walk(root):
+            if isinstance(n, ast.Name):
+                refs.add(n.id)
+            elif isinstance(n, ast.Attribute):
+                refs.add(n.attr)
     for name in NAMES[:3]:
-        ctx.check("R4", P.module(TRG), name in allsrc, f"default-trigger:{name}", f"{name} is instantiated among the default triggers")
+        ctx.check("R4", P.module(TRG), name in refs, f"default-trigger:{name}", f"{name} is instantiated among the default triggers")
     ME = P.cls(ENG, "MergeEngine")
     ic = ME.assigns.get("install_csets")
     lit = {A.try_literal(k): A.unparse(v) for k, v in zip(ic.keys, ic.values)} if isinstance(ic, ast.Dict) else {}
